@@ -158,6 +158,8 @@ class Segment:
         self.cur = None
         self.bridge = None
         self.crashed = False
+        self.lib_ops = 0          # library operations executed so far in this interpreter
+        self.last_lib_op = None
 
     # ---------------------------------------------------------------- infrastructure
     def probe(self, name, n=1):
@@ -227,6 +229,10 @@ class Segment:
             handler = getattr(self, "op_" + op["op"])
             try:
                 handler(op, rec)
+                if op["op"] in ("WRITE", "READ", "EXEC", "RANDATTR"):
+                    self.lib_ops += 1
+                    self.last_lib_op = "%s:%s" % (op["op"], op.get("fmt") or op.get("name") or
+                                                  "GenerateRandomAttribute")
             except simdisk.SimCrash:
                 rec["outcome"] = "crashed"
                 self.crashed = True
@@ -276,12 +282,22 @@ class Segment:
         obj = self.bridge.build(op["ref"], op.get("style", "td"))
         entry = self.register(op["m"], obj, op["ref"], frag=op.get("frag"))
         exp = rm.cj(rm.flat(op["ref"]))
-        if entry["flat"] != exp:
-            raise RuntimeError("harness: built model does not observe as its reference: %s vs %s"
-                               % (entry["flat"][:300], exp[:300]))
         bad = self.bridge.wellformed(obj)
-        if bad:
-            raise RuntimeError("harness: built model is not well-formed: %r" % (bad[:2],))
+        if entry["flat"] != exp or bad:
+            if self.lib_ops == 0:
+                # nothing of the library has run yet in this interpreter: my builder is wrong
+                raise RuntimeError("harness: built model does not observe as its reference: "
+                                   "%s vs %s %r" % (entry["flat"][:300], exp[:300], bad[:2]))
+            # a model built through the public constructors no longer comes out as specified:
+            # something executed earlier in this interpreter changed shared state (a default
+            # object, a class attribute, a module-level cache)
+            diffs = rm.compare(op["ref"], self.bridge.observe(obj), ALL_FACETS)
+            self.fail(self.job.get("prop") or "C19", "frame.fresh_model_contaminated",
+                      self.last_lib_op or "NEW",
+                      "a model freshly built through the public constructors differs from its "
+                      "specification after earlier operations in this process: %r %r" % (
+                          diffs[:2], bad[:1]), rm.case_tags(op["ref"]) + ["hist.frame"])
+            entry["tainted"] = True
         rec["outcome"] = "ok"
 
     def op_EDIT(self, op, rec):
@@ -299,8 +315,17 @@ class Segment:
         now = rm.cj(rm.flat(observed))
         diffs = rm.compare(op["ref_after"], observed, ALL_FACETS)
         if diffs:
-            raise RuntimeError("harness: edit %r did not produce the planned reference: %r" %
-                               (op["edit"], diffs[:2]))
+            if self.lib_ops == 0:
+                raise RuntimeError("harness: edit %r did not produce the planned reference: %r" %
+                                   (op["edit"], diffs[:2]))
+            # the edit goes through the public constructors / setters only: if its outcome is
+            # not the planned one, shared state was changed by an earlier library operation
+            self.fail(self.job.get("prop") or "C19", "frame.fresh_model_contaminated",
+                      self.last_lib_op or "EDIT",
+                      "an edit made through the public constructors did not have its specified "
+                      "effect after earlier operations in this process: %r" % (diffs[:2],),
+                      rm.case_tags(op["ref_after"]) + ["hist.frame"])
+            entry["tainted"] = True
         entry["flat"] = now
         rec["outcome"] = "ok"
 
@@ -586,8 +611,23 @@ class Segment:
             if op.get("via") == "parse_json":
                 with simdisk.REAL_OPEN(self.abspath(rel), "r", encoding="utf-8") as fh:
                     loaded = json.load(fh)
+                before_obj = rm.cj(loaded)
                 model = rcls.parse_json(loaded)
                 site = rcls.__name__ + ".parse_json"
+                again = None
+                try:
+                    again = rm.cj(rm.flat(self.bridge.observe(rcls.parse_json(loaded))))
+                except Exception as err:  # noqa: BLE001
+                    again = "raised %s" % type(err).__name__
+                first = rm.cj(rm.flat(self.bridge.observe(model)))
+                self.probe("parse_json_same_object_twice")
+                if again != first or rm.cj(loaded) != before_obj:
+                    self.fail("C05", "json.obj_parse_not_repeatable", site,
+                              "parsing the same loaded JSON object a second time gave %s "
+                              "(object %s by the first parse)" % (
+                                  "another model" if again != first else "the same model",
+                                  "changed" if rm.cj(loaded) != before_obj else "unchanged"),
+                              tags)
             else:
                 model = reader.transform()
             rec["outcome"] = "ok"
